@@ -225,6 +225,9 @@ class FileIndex(object):
                 if delete_on_error:
                     os.remove(index_path)
                 raise ValueError("Index file empty but data file not 0 length. [size=%d B]" % data_file_size)
+            elif len(self) == 0:
+                # Both the data file and the index are empty: nothing to validate.
+                return
 
             # Get the last entry in the index. If its message type is INVALID, it's a special marker at the end of the
             # index file indicating the size of the binary data file when the index was created. If it exists, we can
